@@ -144,3 +144,124 @@ Definition exh_model_codes (n : nat) : list N :=
 
 Definition exh_violations (n : nat) (obs : list N) : list nat := diff_indices_lim REPORT_MAX 0 (exh_prop_codes n) obs.
 Definition exh_mismatches (n : nat) (obs : list N) : list nat := diff_indices_lim REPORT_MAX 0 (exh_model_codes n) obs.
+
+(* ---------- deep topics and filters (round 4): levels are sent as codes, strings are the codes'
+   levels joined by '/'.  One case = one ServeMux: all filters registered in order, the topic
+   served once.  c14.go: c14DeepLevels. ---------- *)
+Definition deep_level (c : N) : str :=
+  match c with
+  | 0 => []                 (* ""   *)
+  | 1 => [97]               (* "a"  *)
+  | 2 => [98]               (* "b"  *)
+  | 3 => [36; 120]          (* "$x" *)
+  | 4 => [97; 98]           (* "ab" *)
+  | 5 => [43]               (* "+"  *)
+  | 6 => [35]               (* "#"  *)
+  | 7 => [97; 43]           (* "a+" *)
+  | 8 => [35; 98]           (* "#b" *)
+  | _ => [48]               (* "0"  *)
+  end.
+
+Definition deep_str (cs : list N) : str := join (map deep_level cs).
+
+Definition deep_ok (c : list N * list (list N) * list bool * list nat) : bool :=
+  let '(t, fs, accs, called) := c in
+  mux_ok (combine (map deep_str fs) (seq 0 (length fs)), deep_str t, accs, called).
+
+Definition deep_mismatches (cs : list (list N * list (list N) * list bool * list nat)) : list nat :=
+  indices_where (fun c => negb (deep_ok c)) cs.
+
+(* ---------- re-entrant histories (round 4) ---------- *)
+
+Fixpoint acts_of (l : list (nat * (str * nat * str))) (h : nat) : hact :=
+  match l with
+  | [] => None
+  | (h', a) :: r => if Nat.eqb h h' then Some a else acts_of r h
+  end.
+
+Definition inv_eqb (a b : nat * nat) : bool := Nat.eqb (fst a) (fst b) && Nat.eqb (snd a) (snd b).
+
+Definition nev_eqb (a b : nmux_ev) : bool :=
+  match a, b with
+  | NvHandle x, NvHandle y => Bool.eqb x y
+  | NvServe x, NvServe y => list_eqb inv_eqb x y
+  | _, _ => false
+  end.
+
+Definition nest_case := (list (nat * (str * nat * str)) * nat * list mux_op * list nmux_ev)%type.
+
+(* V: position by position from the history (Filter.nserve_expected, C14_mux_nested_decided) *)
+Definition nest_prop_ok (c : nest_case) : bool :=
+  let '(al, fuel, ops, evs) := c in
+  Nat.eqb (length evs) (length ops)
+  && forallb (fun k => option_eqb nev_eqb (nth_error evs k) (nserve_expected (acts_of al) fuel ops k))
+             (seq 0 (length ops)).
+
+Definition nest_violations (cs : list nest_case) : list nat :=
+  indices_where (fun c => negb (nest_prop_ok c)) cs.
+
+(* M: the state machine *)
+Definition nest_model_ok (c : nest_case) : bool :=
+  let '(al, fuel, ops, evs) := c in
+  list_eqb nev_eqb evs (nmuxes_run (acts_of al) fuel muxes_empty ops).
+
+Definition nest_mismatches (cs : list nest_case) : list nat :=
+  indices_where (fun c => negb (nest_model_ok c)) cs.
+
+(* exhaustive re-entrant histories: 7 operations on 2 instances, three of the registrations carry
+   a re-dispatching handler; nesting depth bound 2.  c14.go: c14NexhOp. *)
+Definition nexh_op (pos : nat) (c : N) : mux_op :=
+  match c with
+  | 0 => OpHandle 0 [97] pos            (* m0.Handle("a"), handler: given "a" -> m0.Serve("b") *)
+  | 1 => OpHandle 0 [43] pos            (* m0.Handle("+")  *)
+  | 2 => OpHandle 0 [98] pos            (* m0.Handle("b"), handler: given "b" -> m1.Serve("a") *)
+  | 3 => OpServe 0 [97]                 (* m0.Serve("a")   *)
+  | 4 => OpServe 0 [98]                 (* m0.Serve("b")   *)
+  | 5 => OpHandle 1 [35] pos            (* m1.Handle("#"), handler: given "a" -> m0.Serve("b") *)
+  | _ => OpServe 1 [97]                 (* m1.Serve("a")   *)
+  end.
+
+Definition nexh_act (c : N) : hact :=
+  match c with
+  | 0 => Some ([97], 0%nat, [98])
+  | 2 => Some ([98], 1%nat, [97])
+  | 5 => Some ([97], 0%nat, [98])
+  | _ => None
+  end.
+
+Fixpoint nexh_ops_from (pos : nat) (cs : list N) : list mux_op :=
+  match cs with
+  | [] => []
+  | c :: r => nexh_op pos c :: nexh_ops_from (S pos) r
+  end.
+
+(* handler ids are positions *)
+Definition nexh_acts (cs : list N) (h : nat) : hact :=
+  match nth_error cs h with Some c => nexh_act c | None => None end.
+
+Definition NEXH_FUEL : nat := 2.
+
+Definition nev_code (e : nmux_ev) : N :=
+  match e with
+  | NvHandle false => 1
+  | NvHandle true => 2
+  | NvServe tr => 3 + 4 * fold_right (fun e acc => N.of_nat (fst e * 8 + S (snd e)) + 32 * acc) 0 tr
+  end.
+
+Definition nexh_prop_last (cs : list N) : N :=
+  let ops := nexh_ops_from 0 cs in
+  match nserve_expected (nexh_acts cs) NEXH_FUEL ops (pred (length ops)) with
+  | Some e => nev_code e
+  | None => 0
+  end.
+
+Definition nexh_model_last (cs : list N) : N :=
+  match rev (nmuxes_run (nexh_acts cs) NEXH_FUEL muxes_empty (nexh_ops_from 0 cs)) with
+  | [] => 0
+  | e :: _ => nev_code e
+  end.
+
+Definition nexh_violations (n : nat) (obs : list N) : list nat :=
+  diff_indices_lim REPORT_MAX 0 (map nexh_prop_last (strings_upto exh_alpha n)) obs.
+Definition nexh_mismatches (n : nat) (obs : list N) : list nat :=
+  diff_indices_lim REPORT_MAX 0 (map nexh_model_last (strings_upto exh_alpha n)) obs.
